@@ -236,13 +236,17 @@ def _collect(ex, step, rec, where):
             ex.rare['precision_resynced'] = ex.rare.get('precision_resynced', 0) + 1
     if rec is None or not step.get('judge') or step.get('kind') not in ('call', 'probe'):
         return
+    # a re-entrant callback (F4) is an interleaving, not a fault: the outer call's own result is judged
+    # (against the pristine evaluation, whose callback does not re-enter the library)
+    reentry = bool(rec.get('fired')) and rec['fired'].get('kind') == 'F4'
     r = {'step': dict((k, v) for k, v in step.items() if k not in ('fault', '_refargs')),
-         'status': rec.get('status'), 'fired': rec.get('fired'), 'after_abort': bool(getattr(ex, 'after_abort', False)),
+         'status': rec.get('status'), 'fired': None if reentry else rec.get('fired'),
+         'after_abort': bool(getattr(ex, 'after_abort', False)),
          'prec': ex.model.get(step.get('actor', 'mp'))[0], 'starts': rec.get('starts', 0)}
     ex.sigs.add(common.cache_signature(ex.w))
     if '_refargs' in step:
         r['step']['args'] = step.pop('_refargs')
-    if rec.get('status') == 'ok':
+    if rec.get('status') == 'ok' or (reentry and rec.get('status') == 'absorbed'):
         r['value'] = codec.encode(rec.get('_res'))
     elif rec.get('status') in ('raised', 'faulted'):
         r['value'] = rec.get('exc')
@@ -378,6 +382,8 @@ class _Gen(object):
             nested['workprec'] = pick_prec(r, 300)
             nested.pop('key', None)
             st['fault'] = {'kind': 'F4', 'u': u3, 'slot': 0, 'act': 'nested', 'step': nested}
+            if e.key not in EXCLUDE:
+                st.update({'judge': True, 'tol': e.tol or 2, 'exact': bool(e.exact), 'rel': 'reentry', 'group': '+'.join(self.groups)})
         self.nfault += 1
 
     def call(self, actor, e, judge=False, probe=False, reuse=None, rel='hist'):
@@ -510,6 +516,22 @@ class _Gen(object):
 
     # -- matrix objects -----------------------------------------------------------
     def matrix_steps(self, steps):
+        """one matrix step; a mutation is (usually) sandwiched between a decomposition that fills the
+        object's cache and a judged decomposition of the mutated object"""
+        r = self.rng
+        before = len(steps)
+        self._matrix_one(steps)
+        mut = [s for s in steps[before:] if s.get('op') in ('setitem:', 'setattr:rows', 'setattr:cols', 'f:swap_row')]
+        if mut and r.random() < 0.7:
+            obj = json.loads(json.dumps(mut[0]['args'][0]))
+            def dec():
+                op = r.choice(['f:LU_decomp', 'f:lu'])
+                return {'kind': 'call', 'actor': 'mp', 'op': op, 'args': [json.loads(json.dumps(obj))], 'id': self.new_id(),
+                        'key': 'mat_' + op[2:], 'judge': True, 'tol': 16, 'exact': False, 'rel': 'hist', 'group': 'matrix'}
+            steps.insert(before, dec())
+            steps.append(dec())
+
+    def _matrix_one(self, steps):
         r = self.rng
         if not self.mats or r.random() < 0.2:
             n = r.randint(2, 5)
@@ -551,8 +573,30 @@ class _Gen(object):
             steps.append({'kind': 'call', 'actor': 'mp', 'op': 'setattr:rows', 'args': [obj, I(n - 1)], 'id': self.new_id()})
             steps.append({'kind': 'call', 'actor': 'mp', 'op': 'setattr:cols', 'args': [obj, I(n - 1)], 'id': self.new_id()})
             m['n'] = n - 1
-        elif c < 0.9:
-            steps.append({'kind': 'call', 'actor': 'mp', 'op': 'f:swap_row', 'args': [obj, I(r.randint(0, n - 1)), I(r.randint(0, n - 1))], 'id': self.new_id()})
+        elif c < 0.86:
+            i = r.randint(0, n - 1)
+            j = (i + r.randint(1, max(1, n - 1))) % n
+            steps.append({'kind': 'call', 'actor': 'mp', 'op': 'f:swap_row', 'args': [obj, I(i), I(j)], 'id': self.new_id()})
+        elif c < 0.90:
+            # row / column / block assignment through slices (scalar or a matrix of matching shape)
+            i = r.randint(0, n - 1)
+            if r.random() < 0.5:
+                key = {'t': 'tuple', 'v': [I(i), {'t': 'slice', 'v': [None, None]}]}
+                val = catalogue.mat_spec(r, 1, n) if r.random() < 0.6 else {'t': 'frac', 'v': [r.randint(-40, 40), 2]}
+            else:
+                key = {'t': 'tuple', 'v': [{'t': 'slice', 'v': [None, None]}, I(i)]}
+                val = catalogue.mat_spec(r, n, 1) if r.random() < 0.6 else {'t': 'frac', 'v': [r.randint(-40, 40), 2]}
+            steps.append({'kind': 'call', 'actor': 'mp', 'op': 'setitem:', 'args': [obj, key, val], 'id': self.new_id()})
+        elif c < 0.93:
+            # decomposition that overwrites a *copy* made for the purpose, then the original is used again
+            cp = {'kind': 'call', 'actor': 'mp', 'op': 'm:copy', 'args': [obj], 'id': self.new_id()}
+            steps.append(cp)
+            steps.append({'kind': 'call', 'actor': 'mp', 'op': 'f:LU_decomp', 'args': [{'t': 'obj', 'i': cp['id']}], 'kwargs': {'overwrite': I(1)},
+                          'id': self.new_id()})
+        elif c < 0.96:
+            tp = {'kind': 'call', 'actor': 'mp', 'op': 'm:transpose', 'args': [obj], 'id': self.new_id()}
+            steps.append(tp)
+            self.mats.append({'id': tp['id'], 'n': n})
         else:
             cp = {'kind': 'call', 'actor': 'mp', 'op': 'm:copy', 'args': [obj], 'id': self.new_id()}
             steps.append(cp)
